@@ -135,6 +135,11 @@ MUTANTS = [
                     .to_texpr(),
                 ),''', '''                Some(synexpr) => Some(expr_to_asg_texpr(Some(synexpr), context).unwrap()),'''),
     M('synx:new_at_offset:range-not-empty', 'synx', ['C12'], 'SyntaxError::new_at_offset', 'TextRange::empty(offset)', 'TextRange::at(offset, offset)'),
+    M('sema:include:read-failure-not-reported', 'sema', ['C12'], 'syntax_to_semantic', '''context.insert_error(
+                                // Convert the io::ErrorKind to a SemanticErrorKind
+                                SemanticErrorKind::from_io_error(include_error.error),
+                                &filename_included,
+                            );''', 'let _k = SemanticErrorKind::from_io_error(include_error.error);'),
     # ---- PARSER marker discipline
     M('parser:marker:complete-wrong-slot', 'parser', ['C01', 'C02'], 'Marker::complete', 'let idx = self.pos as usize;', 'let idx = (self.pos as usize) + 1;'),
     M('parser:marker:abandon-always-pops', 'parser', ['C01', 'C02'], 'Marker::abandon', 'if idx == p.events.len() - 1 {', 'if idx <= p.events.len() - 1 {'),
